@@ -110,6 +110,15 @@ Theorem C09_user_lazy_offer_in_histories :
            ((do o <- make_offer c (SLazyUser d); offer_into c vid o (raw_action c idx);; ret (0, [])) w) r.
 Proof. exact exec_offer_userlazy. Qed.
 
+(** at(idx).lazy_clone()^depth .downcast::<T>() as a step of any history: exactly one Clone of that element whatever the depth of the chain, the clone is the caller's (destroyed there), the vector and every other vector are untouched; out of range: panics *)
+Theorem C09_lazy_down_in_histories :
+  forall (c : cfg) (w : world) (st : astate) (d : N) (v : nat) (idx : N) (r : sres),
+         cfg_wf c ->
+         WRep c w st ->
+         ufuse (wuw w) = None ->
+         sp_lazy_down c st (unext (wuw w)) v idx = Some r -> res_matches c w (exec c (OLazyDown d v idx) w) r.
+Proof. exact exec_lazy_down. Qed.
+
 (* ---- end histories ---- *)
 Print Assumptions C09_push.
 Print Assumptions C09_insert.
@@ -117,3 +126,4 @@ Print Assumptions C09_push_panics.
 Print Assumptions C09_raw_action_clone.
 Print Assumptions C09_lazy_offer_in_histories.
 Print Assumptions C09_user_lazy_offer_in_histories.
+Print Assumptions C09_lazy_down_in_histories.
